@@ -69,6 +69,15 @@ func c15values(rng *rand.Rand, nLimb, nRand int) []c15val {
 		addReg(new(big.Int).Add(new(big.Int).Mod(two256, r), big.NewInt(d)), "edge")
 		addReg(new(big.Int).Add(new(big.Int).Mod(new(big.Int).Mul(two256, two256), r), big.NewInt(d)), "edge")
 	}
+	// small and power-of-two regular values (their Montgomery limbs are "random", their regular limbs structured)
+	for _, k := range []int64{3, 5, 13, 255, 256, 65535, 65536, 1 << 32, 1<<62 + 1} {
+		addReg(big.NewInt(k), "edge")
+	}
+	for _, sh := range []uint{63, 64, 65, 127, 128, 129, 191, 192, 193, 252} {
+		v := new(big.Int).Lsh(big.NewInt(1), sh)
+		addReg(v, "edge")
+		addReg(new(big.Int).Sub(v, big.NewInt(1)), "edge")
+	}
 	// raw-limb edges: also tiny raw limbs
 	for d := int64(0); d <= 2; d++ {
 		add(big.NewInt(d), "edge")
@@ -358,6 +367,28 @@ func (m *c15mon) unary(ops c15ops, x *c15val) {
 	var z fr.Element
 	z.Square(&x.e)
 	m.expect("Square", &z, ref.MulR(x.v, x.v), x, nil)
+	z = x.e
+	z.Square(&z)
+	m.expect("Square(alias)", &z, ref.MulR(x.v, x.v), x, nil)
+	z = x.e
+	z.Div(&z, &z)
+	wantOne := big.NewInt(1)
+	if x.v.Sign() == 0 {
+		wantOne = new(big.Int)
+	}
+	m.expect("Div(z,z,z)", &z, wantOne, x, nil)
+	z = x.e
+	z.Exp(z, big.NewInt(3))
+	m.expect("Exp(alias)", &z, new(big.Int).Exp(x.v, big.NewInt(3), ref.R), x, nil)
+	z = x.e
+	if rt := z.Sqrt(&z); rt != nil {
+		rv := FrToBig(rt)
+		if ref.MulR(rv, rv).Cmp(x.v) != 0 {
+			c.Fail("alias/Sqrt", "Sqrt with the receiver aliasing the argument returned a wrong root", c15detail(x, nil))
+		}
+	} else if big.Jacobi(x.v, ref.R) != -1 {
+		c.Fail("alias/Sqrt", "Sqrt with the receiver aliasing the argument returned nil for a square", c15detail(x, nil))
+	}
 	z.Inverse(&x.e)
 	m.expect("Inverse", &z, ref.InvR(x.v), x, nil)
 	z = x.e
@@ -541,7 +572,8 @@ func runC15(c *mon.Ctx) {
 	c15exps = []*big.Int{big.NewInt(0), big.NewInt(1), big.NewInt(2), new(big.Int).Rsh(new(big.Int).Sub(r, bigOne), 1),
 		new(big.Int).Sub(r, big.NewInt(2)), new(big.Int).Sub(r, bigOne), r, new(big.Int).Lsh(bigOne, 255), new(big.Int).Sub(two256, bigOne)}
 	rngV := c.Rand("values")
-	c15exps = append(c15exps, randBig(rngV, two256), randBig(rngV, new(big.Int).Lsh(bigOne, 64)))
+	c15exps = append(c15exps, randBig(rngV, two256), randBig(rngV, new(big.Int).Lsh(bigOne, 64)),
+		new(big.Int).Lsh(bigOne, 64), new(big.Int).Sub(new(big.Int).Lsh(bigOne, 64), bigOne), new(big.Int).Add(new(big.Int).Lsh(bigOne, 128), bigOne), big.NewInt(65537))
 
 	noadxBuild := c.Config["path"] == "noadx-build"
 	if noadxBuild && fr.VerifSupportAdx() {
